@@ -1183,9 +1183,10 @@ Proof.
   intros ctx p l H. unfold bindq, maps_of, resolve. simpl qprefix. simpl qlocal.
   rewrite find_in_app, find_in_maps; auto.
   destruct (lookup p ctx) as [[u|]|]; auto.
-  simpl find_in. destruct (default_lookup p) as [D1 D2].
-  destruct (nm_get nm_default p) as [[u|]|] eqn:G; simpl in D1; try (rewrite <- D1; reflexivity).
-  Show. rewrite D2; auto.
+  change (find_in [nm_default] p) with
+    (match nm_get nm_default p with Some v => Some v | None => @None (option str) end).
+  destruct (default_lookup p) as [D1 D2].
+  destruct (nm_get nm_default p) as [[u|]|] eqn:G; try (rewrite <- D1; reflexivity).
 Qed.
 
 Theorem elem_name_spec : forall ctx name attrs src,
@@ -1195,3 +1196,251 @@ Proof.
   rewrite E, process_qname_spec. rewrite bindq_spec; auto.
   destruct (spec_split (fst src)); reflexivity.
 Qed.
+
+(* ----------------------------------------------------------- attributes *)
+
+Definition nonx (x : rawattr) : bool := negb (xmlnsish x).
+
+Lemma bind_attrs_pure_skip : forall D maps P rest,
+  forallb (fun a => is_xmlns_attr (aname a)) D = true ->
+  bind_attrs_pure maps P (D ++ rest) = bind_attrs_pure maps P rest.
+Proof.
+  induction D as [|a D IH]; intros maps P rest H; simpl; auto.
+  simpl in H. apply andb_true_iff in H. destruct H as [H1 H2]. rewrite H1. apply IH; auto.
+Qed.
+
+Definition Rel (seenU : list str) (P : list (str * str)) (S : list (bool * (str * str))) : Prop :=
+  (forall n, classify_raw n = KOther None n ->
+             existsb (str_eqb n) seenU = existsb (akey_eqb (false, ([], n))) S) /\
+  (forall pr, existsb (pair_eqb pr) P = existsb (akey_eqb (true, pr)) S).
+
+Lemma Rel_seen_other : forall n seenU P S, Rel seenU P S ->
+  (forall n', classify_raw n' = KOther None n' -> n' <> n) -> Rel (n :: seenU) P S.
+Proof.
+  intros n seenU P S [R1 R2] H. split; auto.
+  intros n' C. simpl. rewrite R1; auto.
+  assert (E : str_eqb n' n = false) by (apply str_eqb_neq; auto). rewrite E. reflexivity.
+Qed.
+
+Lemma process_qname_mk : forall n, process_qname n = mkq (prefix_of n) [] (local_of n).
+Proof. intro n. apply process_qname_spec. Qed.
+
+Lemma attrs_compose : forall scopes, forallb scope_ok scopes = true ->
+  forall raws seenU P S, Rel seenU P S -> class9 raws = false ->
+  bind_attrs_pure (maps_of scopes) P (map mk (filter nonx (keptU seenU raws))) =
+  dedup_from S (filter_map (spec_attr scopes) raws).
+Proof.
+  intros scopes OK. induction raws as [|[n v] r IH]; intros seenU P S RL C9; [reflexivity|].
+  simpl in C9. apply orb_false_iff in C9. destruct C9 as [C9 C9r].
+  cbn [keptU filter_map]. unfold spec_attr at 1. simpl fst. simpl snd.
+  pose proof (xmlnsish_classify n v) as X.
+  destruct (classify_raw n) as [| p | p l] eqn:C.
+  - (* xmlns= *)
+    assert (RL' : Rel (n :: seenU) P S).
+    { apply Rel_seen_other; auto. intros n' C' E. subst. congruence. }
+    destruct (unsplit n && existsb (str_eqb n) seenU).
+    + apply IH; auto.
+    + cbn [filter]. unfold nonx at 1. rewrite X. simpl. apply IH; auto.
+  - assert (RL' : Rel (n :: seenU) P S).
+    { apply Rel_seen_other; auto. intros n' C' E. subst. congruence. }
+    destruct (unsplit n && existsb (str_eqb n) seenU).
+    + apply IH; auto.
+    + cbn [filter]. unfold nonx at 1. rewrite X. simpl. apply IH; auto.
+  - pose proof (classify_other _ _ _ C) as (PF & LC & NX & ND).
+    destruct p as [p|].
+    + (* prefixed attribute *)
+      rewrite C9 in X.
+      assert (U : unsplit n = false) by (unfold unsplit; rewrite PF; reflexivity).
+      rewrite U. simpl andb. cbn [filter]. unfold nonx at 1. rewrite X. simpl negb. cbn [map].
+      cbn [bind_attrs_pure].
+      assert (XA : is_xmlns_attr (aname (mk (n, v))) = false) by exact X. rewrite XA.
+      unfold mk at 1. simpl aname. rewrite process_qname_mk, PF, LC. simpl qprefix.
+      rewrite bindq_spec; auto.
+      simpl qns. simpl qlocal. unfold mk. simpl avalue. simpl snd.
+      cbn [dedup_from]. unfold akey at 1. simpl.
+      destruct RL as [R1 R2]. rewrite R2.
+      destruct (existsb (akey_eqb (true, (resolve (Some p) scopes, l))) S) eqn:EX.
+      * apply IH; auto. apply Rel_seen_other; [split; auto|]. intros n' C' E. subst. congruence.
+      * f_equal. apply IH; auto. split.
+        -- intros n' C'. simpl. rewrite R1; auto.
+           assert (E : str_eqb n' n = false) by (apply str_eqb_neq; intro; subst; congruence).
+           rewrite E. reflexivity.
+        -- intro pr. simpl. rewrite R2. unfold akey_eqb at 1. simpl. reflexivity.
+    + (* unprefixed attribute *)
+      assert (LN : l = n) by (rewrite <- LC; apply unprefixed_local; auto). rewrite LN in *. clear LN.
+      assert (U : unsplit n = true) by (unfold unsplit; rewrite PF; reflexivity).
+      rewrite U. simpl andb.
+      destruct RL as [R1 R2].
+      cbn [dedup_from].
+      assert (EQ : existsb (str_eqb n) seenU = existsb (akey_eqb (akey (mka (mkq None [] n) v))) S)
+        by (rewrite (R1 n C); reflexivity).
+      rewrite EQ. clear EQ.
+      destruct (existsb (akey_eqb (akey (mka (mkq None [] n) v))) S) eqn:EX.
+      * apply IH; auto. split; auto.
+        intros n' C'. simpl. rewrite R1; auto.
+        destruct (str_eqb n' n) eqn:E; auto. apply str_eqb_eq in E. subst. simpl. auto.
+      * cbn [filter]. unfold nonx at 1. rewrite X. simpl negb. cbn [map bind_attrs_pure].
+        assert (XA : is_xmlns_attr (aname (mk (n, v))) = false) by exact X. rewrite XA.
+        unfold mk at 1. simpl aname. rewrite process_qname_mk, PF. simpl qprefix.
+        unfold mk. simpl fst. simpl snd. rewrite process_qname_mk, PF, LC.
+        f_equal. apply IH; auto. split.
+        -- intros n' C'. simpl. rewrite R1; auto.
+        -- intro pr. simpl. rewrite R2. reflexivity.
+Qed.
+
+Lemma forallb_rev_xmlnsish : forall l,
+  forallb (fun a => is_xmlns_attr (aname a)) (rev (map mk (filter xmlnsish l))) = true.
+Proof.
+  intro l. rewrite forallb_forall. intros a H. apply in_rev in H. apply in_map_iff in H.
+  destruct H as (x & E & Hx). apply filter_In in Hx. subst a. apply Hx.
+Qed.
+
+Theorem elem_attrs_spec : forall ctx name attrs src,
+  elem_lex ctx name attrs src -> attrs_scoped ctx name attrs src.
+Proof.
+  intros ctx name attrs src [_ E] A OK.
+  unfold attrs_ok in A. apply andb_true_iff in A. destruct A as [SO C9]. apply negb_true_iff in C9.
+  assert (OK' : forallb scope_ok (snd src :: ctx) = true) by (simpl; rewrite SO, OK; reflexivity).
+  destruct (scope_ok_parts _ SO) as (NE & C8 & DD).
+  rewrite E, tok_attrs_tk, tk_scope_ok; auto. simpl fst. simpl snd.
+  rewrite bind_attrs_pure_skip by apply forallb_rev_xmlnsish.
+  unfold spec_attrs. apply (attrs_compose _ OK'); auto.
+  split; intros; reflexivity.
+Qed.
+
+Lemma all_elems_mono : forall (P Q : list (list rawattr) -> qname -> list attr -> tagsrc -> Prop),
+  (forall ctx n a s, P ctx n a s -> Q ctx n a s) ->
+  forall n ctx, all_elems P ctx n -> all_elems Q ctx n.
+Proof.
+  intros P Q HPQ. fix IH 1. intros n ctx H. destruct n as [name attrs src kids| | | |]; simpl in *; auto.
+  destruct H as [H1 H2]. split; auto.
+  revert H2. generalize (snd src :: ctx). intro c.
+  induction kids as [|k r IHr]; simpl; auto. intros [A B]. split; [apply IH; exact A|apply IHr; exact B].
+Qed.
+
+Theorem scope_outside_finding : forall rts, Forall (all_elems name_scoped []) (parse_raw rts).
+Proof.
+  intro rts. eapply Forall_impl; [|apply lexical_scope].
+  intro n. apply all_elems_mono. apply elem_name_spec.
+Qed.
+
+Theorem attrs_outside_finding : forall rts, Forall (all_elems attrs_scoped []) (parse_raw rts).
+Proof.
+  intro rts. eapply Forall_impl; [|apply lexical_scope].
+  intro n. apply all_elems_mono. apply elem_attrs_spec.
+Qed.
+
+(* ------------------------------------------- order independence of the rule *)
+From Coq Require Import Permutation.
+
+Lemma pair_eqb_eq : forall a b, pair_eqb a b = true <-> a = b.
+Proof.
+  intros [a1 a2] [b1 b2]. unfold pair_eqb. simpl. rewrite andb_true_iff, !str_eqb_eq.
+  split; [intros [? ?]; congruence|intro H; inversion H; auto].
+Qed.
+
+Lemma akey_eqb_eq : forall a b, akey_eqb a b = true <-> a = b.
+Proof.
+  intros [a1 a2] [b1 b2]. unfold akey_eqb. simpl. rewrite andb_true_iff, pair_eqb_eq, Bool.eqb_true_iff.
+  split; [intros [? ?]; congruence|intro H; inversion H; auto].
+Qed.
+
+Lemma existsb_akey_In : forall k seen, existsb (akey_eqb k) seen = true <-> In k seen.
+Proof.
+  intros k seen. rewrite existsb_exists. split.
+  - intros (x & Hx & E). apply akey_eqb_eq in E. subst. auto.
+  - intro H. exists k. split; auto. apply akey_eqb_eq. reflexivity.
+Qed.
+
+(* the expanded names that survive are exactly the expanded names present *)
+Lemma dedup_from_keys : forall l seen k,
+  In k (map akey (dedup_from seen l)) <-> (In k (map akey l) /\ ~ In k seen).
+Proof.
+  induction l as [|a l IH]; intros seen k; simpl.
+  - tauto.
+  - destruct (existsb (akey_eqb (akey a)) seen) eqn:E.
+    + apply existsb_akey_In in E. rewrite IH. split.
+      * intros [H1 H2]. auto.
+      * intros [[H1|H1] H2]; [subst; contradiction|auto].
+    + assert (NI : ~ In (akey a) seen) by (intro X; apply existsb_akey_In in X; congruence).
+      simpl. rewrite IH. simpl. split.
+      * intros [H|[H1 H2]]; [subst; auto|]. split; auto.
+      * intros [[H1|H1] H2]; auto.
+        destruct (akey_eqb (akey a) k) eqn:E2; [apply akey_eqb_eq in E2; auto|].
+        right. split; auto. intros [X|X]; auto. subst. rewrite (proj2 (akey_eqb_eq _ _) eq_refl) in E2. discriminate.
+Qed.
+
+Lemma dedup_from_nodup : forall l seen, NoDup (map akey (dedup_from seen l)).
+Proof.
+  induction l as [|a l IH]; intro seen; simpl; [constructor|].
+  destruct (existsb (akey_eqb (akey a)) seen); auto.
+  simpl. constructor; auto. rewrite dedup_from_keys. intros [_ H]. apply H. left. reflexivity.
+Qed.
+
+Lemma filter_map_perm : forall (A B : Type) (f : A -> option B) l l',
+  Permutation l l' -> Permutation (filter_map f l) (filter_map f l').
+Proof.
+  intros A B f l l' H. induction H; simpl; auto.
+  - destruct (f x); auto.
+  - destruct (f x), (f y); auto. apply perm_swap.
+  - eapply perm_trans; eauto.
+Qed.
+
+(* which expanded names an element ends up with does not depend on the order
+   in which the attributes were written (only WHICH of two equal names
+   supplies the value does: the first) *)
+Theorem spec_attrs_order_independent : forall scopes raws raws',
+  Permutation raws raws' ->
+  forall k, In k (map akey (spec_attrs scopes raws)) <-> In k (map akey (spec_attrs scopes raws')).
+Proof.
+  intros scopes raws raws' H k. unfold spec_attrs. rewrite !dedup_from_keys.
+  pose proof (Permutation_map akey (filter_map_perm _ _ (spec_attr scopes) _ _ H)) as PM.
+  split; intros [H1 H2]; split; auto.
+  - eapply Permutation_in; eauto.
+  - eapply Permutation_in; [apply Permutation_sym|]; eauto.
+Qed.
+
+(* ------------------------------------------------------------ refutations *)
+Local Transparent s_xml s_xmlns s_script XML_URI XMLNS_URI.
+
+Definition attrs_strict (ctx : list (list rawattr)) (_ : qname) (attrs : list attr) (src : tagsrc) : Prop :=
+  attrs = spec_attrs (snd src :: ctx) (snd src).
+Definition name_strict (ctx : list (list rawattr)) (name : qname) (_ : list attr) (src : tagsrc) : Prop :=
+  name = spec_elem_name (snd src :: ctx) (fst src).
+
+(* <a p:x="1" x="2"/> : x is dropped although no earlier attribute has its expanded name *)
+Definition w8 : list rtoken := [RTag EmptyTag [97] [([112;58;120], [49]); ([120], [50])]; REof].
+(* <a x="2" p:x="1"/> : the same attributes in the other order are both kept *)
+Definition w8' : list rtoken := [RTag EmptyTag [97] [([120], [50]); ([112;58;120], [49])]; REof].
+(* <a p:xmlns="v" y="1"/> *)
+Definition w9 : list rtoken := [RTag EmptyTag [97] [([112;58;120;109;108;110;115], [118]); ([121], [49])]; REof].
+(* <a xmlns:p="u" xmlns:p="v"><p:b/></a> *)
+Definition wdup : list rtoken :=
+  [RTag StartTag [97] [([120;109;108;110;115;58;112], [117]); ([120;109;108;110;115;58;112], [118])];
+   RTag EmptyTag [112;58;98] []; RTag EndTag [97] []; REof].
+
+Theorem attrs_refuted_raw_vs_local :
+  ~ Forall (all_elems attrs_strict []) (parse_raw w8) /\ Forall (all_elems attrs_strict []) (parse_raw w8').
+Proof.
+  split.
+  - intro H. vm_compute in H. inversion H as [|x l H1 H2]; subst. destruct H1 as [E _]. discriminate.
+  - vm_compute. repeat constructor.
+Qed.
+
+Theorem attrs_refuted_prefixed_xmlns : ~ Forall (all_elems attrs_strict []) (parse_raw w9).
+Proof.
+  intro H. vm_compute in H. inversion H as [|x l H1 H2]; subst. destruct H1 as [E _]. discriminate.
+Qed.
+
+Theorem scope_refuted_duplicate_declaration : ~ Forall (all_elems name_strict []) (parse_raw wdup).
+Proof.
+  intro H. vm_compute in H. inversion H as [|x l H1 H2]; subst. destruct H1 as [_ [[E _] _]]. discriminate.
+Qed.
+
+(* the witnesses are inside the classes the theorems exclude, and only there *)
+Lemma witnesses_in_classes :
+  class8 [([112;58;120], [49]); ([120], [50])] = true /\
+  class8 [([120], [50]); ([112;58;120], [49])] = false /\
+  class9 [([112;58;120;109;108;110;115], [118]); ([121], [49])] = true /\
+  dup_decl [([120;109;108;110;115;58;112], [117]); ([120;109;108;110;115;58;112], [118])] = true.
+Proof. vm_compute. auto. Qed.
